@@ -2925,6 +2925,21 @@ def check(ctx):
     _rule7(ctx, rep)
     _rule8(ctx, rep)
     _rule9(ctx, rep)
+    from . import shared
+
+    def _c08(m):
+        M = m.Model(ctx)
+        from ..report import Report
+
+        m._rule1(ctx, Report(PID, ctx.tier, ctx.prog, ''), M)  # fills the model (allocators); its verdict belongs to C08 / C06
+        m.derive_grammar(M)
+        m.derive_chain(M)
+        m._rule2(ctx, rep, M)
+
+    shared.borrow(ctx, rep, [
+        ('c03', lambda m: (m.rule2(ctx, rep), m.rule5(ctx, rep)), 'tasks that cannot be placed stay queued: a job may leave the pending list only when its messages were made, and a cloud job is either hired or handed back'),
+        ('c08', _c08, 'the run id a task message carries comes from db.next(): it must exceed every stored run id'),
+    ])
     return rep
 
 
